@@ -20,6 +20,15 @@ LAYOUTS = ["a ", "\ta\t", "é é\t", "/* c */ a ", "a 'q' + ", "pattern ", "  pa
            "a //\n      "]
 POS = re.compile(r",(-?\d+),(-?\d+);")
 CHUNK = 400000
+# a necessary condition for each construct the property excludes (coarse on purpose: it only has to be implied by
+# the precise triggers of coq/Spec/C02.v).  The reference reader must not answer Ambiguous on a text that shows none
+# of them (that would silently shrink the claim; it would also reveal the reader running out of fuel).
+EXCLUDED_SHAPES = re.compile(
+    r"[^\s;{}'\"]/[/*]"           # (1) comment opener inside an unquoted token
+    r"|\n[ \t]*\t"               # (2) a tab among the leading blanks of a continuation line
+    r"|\\[t \t][ \t]*\n"        # (3) escape-produced blank, blanks, line break
+    r"|\r\n"                     # (4) CR LF
+    r"|\\\n")                    # D48 backslash + line break
 
 
 def exhaustive(alphabet, maxlen, minlen=0):
@@ -107,6 +116,7 @@ class Tally:
         self.kinds = {}
         self.nontrivial = 0
         self.oof = 0
+        self.terminated_checked = 0
         self.samples = []
 
     def run(self, kind, texts):
@@ -114,11 +124,23 @@ class Tally:
         texts = list(texts)
         if not texts:
             return
-        pc = ["parse " + c16.hx(t) for t in texts]
-        sc = ["specparse " + c16.hx(t) for t in texts]
+        hs = [c16.hx(t) for t in texts]
+        pc = ["parse " + h for h in hs]
+        sc = ["specparse " + h for h in hs]
         go = lib.run_go(pc)
         ml = lib.run_ml(pc)
         sp = lib.run_ml(sc)
+        # the theorems speak about the text forced to end in a line break (what yang.Parse lexes): the reference
+        # reader must not care
+        unterminated = [i for i, t in enumerate(texts) if t and not t.endswith("\n")]
+        spt = lib.run_ml(["specparse " + hs[i] + "0a" for i in unterminated])
+        for i, s2 in zip(unterminated, spt):
+            if s2 != sp[i]:
+                self.oracle_mism += 1
+                if self.oracle_mism <= 3:
+                    res.violation("reference reader changes its answer when the text %r is terminated by a line break: %s vs %s"
+                                  % (texts[i][:200], sp[i][:200], s2[:200]), dict(kind="oracle-termination", case=pc[i], spec=sp[i], spec_terminated=s2))
+        self.terminated_checked += len(unterminated)
         self.n += len(texts)
         k = self.kinds.setdefault(kind, dict(cases=0, accept=0, reject=0, ambiguous=0))
         k["cases"] += len(texts)
@@ -137,6 +159,11 @@ class Tally:
                 continue
             self.verdicts[v] += 1
             k[v] += 1
+            if v == "ambiguous" and not EXCLUDED_SHAPES.search(t):
+                self.oracle_mism += 1
+                if self.oracle_mism <= 3:
+                    res.violation("reference reader answers Ambiguous on %r, which shows none of the excluded constructs" % t[:200],
+                                  dict(kind="oracle-vacuity", case=c, impl=g, spec=s))
             self.impl["ok" if g.startswith("ok") else "err"] += 1
             if v == "accept":
                 want = "ok " + s[len("accept "):]
@@ -185,6 +212,17 @@ def run(res, tier, seed, proof):
         T.run_chunked("sub:dquote", ("k " + x for x in exhaustive(['"', "\\", "n", " ", "\n", "x"], 8, 7)))
         T.run_chunked("sub:concat", exhaustive(["a", "+", "'", '"', " ", ";"], 8, 7))
         T.run_chunked("sub:braces", exhaustive(["a", ";", "{", "}", " "], 9, 7))
+    # every token sequence over a 15-token alphabet incl. quoted spellings of + ; { } (quick: up to length 4, and length 5
+    # over the 11 core tokens; thorough: up to length 6), minimal separators; the longest full length again behind `x ` and
+    # `x {`; and with random blanks/comments between the tokens
+    tl = 4 if quick else 6
+    T.run_chunked("token-sequences<=%d" % tl, (c16.render_tokens(q) for q in c16.token_sequences(tl)))
+    if quick:
+        T.run_chunked("token-sequences:core=5", (c16.render_tokens(q) for q in c16.token_sequences(5, 5, c16.CORE_TOKENS)))
+    T.run_chunked("token-sequences:prefixed", (pre + c16.render_tokens(q) for pre in ("x ", "x {")
+                                               for q in c16.token_sequences(tl if quick else tl - 1, tl if quick else tl - 1)))
+    T.run_chunked("token-sequences:noisy", (c16.render_tokens(q, rnd) for q in c16.token_sequences(tl if quick else tl - 1, 2)
+                                            if quick or rnd.random() < 0.25))
     T.run_chunked("multiline-grid", multiline_grid(24))
     T.run_chunked("grammar-directed", grammar_cases(rnd, 3000 if quick else 60000))
     T.run_chunked("malformed", malformed_cases(rnd, 300 if quick else 6000))
@@ -192,6 +230,9 @@ def run(res, tier, seed, proof):
         res.violation("the model reported out-of-fuel on %d case(s)" % T.oof, dict(kind="model-out-of-fuel"), no_input=True)
     cov = dict(evaluations=T.n, distinct_nontrivial=T.nontrivial,
                rule="(i) every string up to length %d over the 14-symbol token alphabet {a + / * ; { } ' \" \\ n SP TAB LF}; "
+                    "every token sequence up to length %d over the 15 tokens {a pattern + ; { } \"b\" 'b' \"+\" '+' \";\" \"{\" \"}\" \"\" \"a\\d\"} "
+                    "(quick: plus length 5 over the first 11 of them) with minimal separators, the longest again behind `x ` and `x {`, and "
+                    "with random blanks/comments between the tokens; "
                     "statements P \"body\"; for every body up to length %d over {x SP TAB LF CR \\ n t \"} in %d layouts P (tabs, multi-byte "
                     "runes, comment / single-quoted piece before the quote, pattern at depth 0 and 1)%s; multi-line grid: every quote column "
                     "up to 24 (by spaces / tabs / after a 2-byte rune) x every continuation indent of spaces with a tab at every position; "
@@ -199,11 +240,11 @@ def run(res, tier, seed, proof):
                     "the excluded constructs) x terminators x gap kinds at depth 0..2, a comment kind in every gap, random forests under layout "
                     "noise; malformed: single-fault mutants of %d kinds and a fixed list.  Both comparisons run on every case.  "
                     "non-trivial = in-claim case (reference reader not Ambiguous) with at least one statement, or rejected"
-                    % (n_ex, nb, 6 if quick else len(LAYOUTS),
+                    % (n_ex, tl, nb, 6 if quick else len(LAYOUTS),
                        "" if quick else "; all strings of length 7..8 (9 for braces) over four 5/6-symbol sub-alphabets", len(KWS), len(ARGS),
                        len(c16.FAULTS)),
                correspondence_mismatches=T.corr_mism, oracle_mismatches=T.oracle_mism, mismatches=T.corr_mism + T.oracle_mism,
-               model_out_of_fuel=T.oof,
+               model_out_of_fuel=T.oof, reference_reader_termination_invariance_checked=T.terminated_checked,
                distribution=dict(reference_verdicts=T.verdicts, implementation=T.impl, by_generator=T.kinds),
                samples=[s["case"] for s in T.samples], sample_observations=[s["impl"] + " | " + s["spec"] for s in T.samples])
     return cov, ["UTF-8 decoding is done by the harness as utf8.DecodeRuneInString does it (modelled, not verified)",
